@@ -629,11 +629,13 @@ def refine_droplet(
     l, h = droplet.data_bounds
     bounds = l[free], h[free]
 
-    # determine the intensities outside and inside the droplet
+    # determine the intensities outside and inside the droplet (from the entire image
+    # in case the droplet is so small that it does not cover any support point)
+    levels = data_mask if data_mask.size > 0 else phase_field.data
     if vmin is None:
-        vmin = np.min(data_mask)
+        vmin = np.min(levels)
     if vmax is None:
-        vmax = np.max(data_mask)
+        vmax = np.max(levels)
     vrng = vmax - vmin
 
     if adjust_values and vrng != 0:
